@@ -118,6 +118,45 @@ def flag_branches(if_node, flag):
     return (if_node.orelse, if_node.body) if truth else (if_node.body, if_node.orelse)
 
 
+
+def payload_fresh(rep, rule, tm, consequence):
+    """The arrays a new transform keeps (TM, TAA) share no storage with what the constructor was given: every store of the two fields in the
+    constructor forms is a fresh array according to the NumPy view / copy table (sa/engine/alias.py), and the reference-keeping setters sTM /
+    sTAA are not handed (a view of) an argument.  -> number of stores examined"""
+    from ..engine.alias import may_alias
+    n = 0
+    for name in ('__init__', 'transformSqueezedCopy', 'from3DOF', 'from6DOF', 'from7DOF'):
+        fi = tm.methods.get(name)
+        if fi is None:
+            continue
+        params = set(fi.params[1:])
+
+        def leaf(e):
+            if isinstance(e, ast.Name) and e.id in params:
+                return {e.id}
+            if isinstance(e, ast.Attribute) and isinstance(e.value, ast.Name) and e.value.id in params and e.attr in ('TM', 'TAA'):
+                return {e.value.id + '.' + e.attr}
+            return None
+        env = {}
+        for st in walk_own(fi.node):
+            if isinstance(st, ast.Assign) and len(st.targets) == 1 and isinstance(st.targets[0], ast.Name) and st.targets[0].id not in params:
+                env[st.targets[0].id] = may_alias(st.value, leaf, env)
+        for st in walk_own(fi.node):
+            if isinstance(st, ast.Assign):
+                for t in st.targets:
+                    if isinstance(t, ast.Attribute) and isinstance(t.value, ast.Name) and t.value.id == 'self' and t.attr in ('TM', 'TAA'):
+                        n += 1
+                        al = may_alias(st.value, leaf, env)
+                        rep.ob(rule, fi, '%s: self.%s = %s is a fresh array' % (name, t.attr, src(st.value)[:50]), not al,
+                               'self.%s is bound to (a view of) %s: %s' % (t.attr, sorted(al), consequence), line=st.lineno)
+            elif isinstance(st, ast.Expr) and isinstance(st.value, ast.Call) and isinstance(st.value.func, ast.Attribute) \
+                    and isinstance(st.value.func.value, ast.Name) and st.value.func.value.id == 'self' and st.value.func.attr in ('sTM', 'sTAA') and st.value.args:
+                n += 1
+                al = may_alias(st.value.args[0], leaf, env)
+                rep.ob(rule, fi, '%s: %s keeps a fresh array' % (name, src(st.value)[:50]), not al,
+                       '%s stores the array it is given, here (a view of) %s: %s' % (st.value.func.attr, sorted(al), consequence), line=st.lineno)
+    return n
+
 def check(model, rep):
     rep.extra['explanation'] = (
         'Coverage (non-interference) analysis of every constructor form: which elements of the initializer reach which slot; '
@@ -168,6 +207,12 @@ def check(model, rep):
     from .tmrows import rotation_only
     for form in ('from3DOF', 'from6DOF', 'from7DOF'):
         rotation_only(rep, 'R04.1', tm, M(form), 'tm.' + form, 'the constructed transform is not at the position it was given')
+    # R04.6 the new transform owns its payload
+    rep.rule('R04.6', 'constructor forms give the new transform arrays of its own: TM / TAA are never (views of) the argument, so a matrix or transform '
+                      'used to build one can be reused without changing it')
+    n_pf = payload_fresh(rep, 'R04.6', tm, 'a later in-place write on either side changes the other - the transform built from a matrix no longer '
+                         'equals the one built from the equivalent six-vector, setQuat on it rewrites the caller\'s matrix')
+    rep.floor('R04.6', 'payload stores of the constructor forms', n_pf, 5)
     f3, e3 = run_form('from3DOF', False)
     got = e3.stores.get('self.TAA', ('unk', 'no store'))
     ok = got[0] == 'lst' and len(got[1]) == 6 and all(zero_like(x) for x in got[1][:3]) and got[1][3:] == (el(0), el(1), el(2))
@@ -217,7 +262,7 @@ def check(model, rep):
     CTORS = ('from3DOF', 'from6DOF', 'from7DOF')
     table = {}
     for k_, want_c in ((6, 'from6DOF'), (7, 'from7DOF'), (3, 'from3DOF')):
-        ps = paths_of(init.node, init.params, consts={'len(%s)' % iai: k_})
+        ps = paths_of(init.node, init.params, consts={'len(%s)' % iai: k_, '%sisNone' % iai: False, '%s==None' % iai: False})     # a given initializer
         got = set()
         for p_ in ps:
             if p_.facts.get("hasattr(%s,'TM')" % iai) is True:
@@ -226,7 +271,7 @@ def check(model, rep):
         table[k_] = sorted(got)
         rep.ob('R04.1', init, 'length %d -> %s on every path' % (k_, want_c), got == {(want_c,)},
                'an initializer of length %d reaches %s' % (k_, sorted(got) or 'no constructor'))
-    ps = paths_of(init.node, init.params, consts={'len(%s)' % iai: 2, 'isinstance(%s,list)' % iai: True})
+    ps = paths_of(init.node, init.params, consts={'len(%s)' % iai: 2, 'isinstance(%s,list)' % iai: True, '%sisNone' % iai: False, '%s==None' % iai: False})
     got = {tuple(c_[1][5:] for c_ in p_.calls(lambda n_: n_.startswith('self.') and n_[5:] in CTORS)) for p_ in ps
            if p_.facts.get("hasattr(%s,'TM')" % iai) is not True}
     rep.ob('R04.1', init, 'a list of length 2 -> pair form (from6DOF) on every path', got == {('from6DOF',)}, 'a [position, rotation] pair reaches %s' % sorted(got))
